@@ -68,11 +68,11 @@ CHECKS = {
     "C07": (True, "Stratified Hypothesis: adjointness/force/torque invariants between the real interpolation and spreading kernels + independent numpy delta-function reference for accumulation",
             "Adjoint identity, total force, Peskin first moment, and accumulation over pre-filled targets / overlapping supports / "
             "repeated calls against an independent float64 reference.", "3/C07", ""),
-    "C08": (True, "Stratified Hypothesis over all forcing-grid classes x generated poses/rods/forces: momentum, moment and power balance invariants; end-to-end balance through the real interaction classes",
+    "C08": (True, "Stratified Hypothesis over all forcing-grid classes x generated poses/rods/forces: momentum, moment and power balance invariants; end-to-end balance through the real interaction classes; plus a libFuzzer (atheris) campaign per variant over the same generator and oracle, steered by branch coverage of the pure-Python repo modules",
             "Net force, net moment about a drawn point (nodal forces + lab-frame element couples) and power balance of "
             "transfer_forcing_from_grid_to_body for every grid class; fluid+body force balance through "
             "ImmersedBodyFlowInteraction.__call__/compute_flow_forces_and_torques.", "3/C08", ""),
-    "C09": (True, "Stratified Hypothesis over all forcing-grid classes: marker positions/velocities vs independent rigid-section kinematics, exact pose advance with Taylor-remainder bound",
+    "C09": (True, "Stratified Hypothesis over all forcing-grid classes: marker positions/velocities vs independent rigid-section kinematics, exact pose advance with Taylor-remainder bound; plus a libFuzzer (atheris) campaign per variant over the same generator and oracle, steered by branch coverage of the pure-Python repo modules",
             "Independent float64 kinematics reference (lab-frame angular velocity, mass-weighted element velocity, Rodrigues "
             "pose advance) for every rigid-body and rod grid, incl. radius/cap-ratio geometry and bit-identity of the nodal grid.",
             "3/C09", ""),
@@ -90,7 +90,7 @@ CHECKS = {
             "State transformed by axis permutations and mirrors (vorticity as pseudo-scalar/vector, polar vectors with signs); a second "
             "simulator with the permuted grid takes the same step; results must commute within 512 eps S for every simulator class "
             "and configuration.", "3/C14", ""),
-    "C17": (True, "Stratified Hypothesis over generated registries and raw bit-pattern contents (NaN payloads, inf, denormals): bit-exact round-trip, h5py layout oracle, rejection of tampered files",
+    "C17": (True, "Stratified Hypothesis over generated registries and raw bit-pattern contents (NaN payloads, inf, denormals): bit-exact round-trip, h5py layout oracle, rejection of tampered files; plus a libFuzzer (atheris) campaign per variant over the same generator and oracle, steered by branch coverage of the pure-Python repo modules",
             "IO, EulerianFieldIO and CosseratRodIO with generated names/grids/marker counts (incl. N == dim, field names repeated across "
             "grids, grids without fields): save leaves sources untouched, fresh objects reload bit-exactly, on-disk layout as documented, "
             "missing datasets / differing grid parameters raise.", "3/C17", ""),
@@ -140,7 +140,9 @@ def main():
             "path": "/verif/sophtverif",
             "serves_properties": [c["property_id"] for c in checks],
             "kind_free_text": "Hypothesis property-based tests (plain and stateful) + exhaustive enumeration of small finite "
-                              "domains, against independent numpy/Fraction oracles; kernel IR captured from pystencils",
+                              "domains, against independent numpy/Fraction oracles; kernel IR captured from pystencils; "
+                              "coverage-guided fuzzing (atheris/libFuzzer through Hypothesis' fuzz_one_input) of the "
+                              "pure-Python parts (IO layer, forcing grids) with the same oracles",
         }],
         "checks": checks,
         "not_applicable": na,
